@@ -36,6 +36,10 @@ type Flow struct {
 	deep   int
 	deepOK func(*ssa.Function) bool
 	ds     *deepState
+	// NoSummary names call instructions whose effect is defined by the Instr
+	// callback through the identity of the call (an "open" point): the
+	// callee summary must not overwrite it.
+	NoSummary func(ins ssa.Instruction) bool
 }
 
 // Solve runs the analysis to its greatest fix-point.
@@ -156,7 +160,7 @@ func (f *Flow) transfer(b *ssa.BasicBlock, in bool, until ssa.Instruction) bool 
 		if f.Instr != nil {
 			v = f.Instr(ins, v)
 		}
-		if g := f.deepCallee(ins); g != nil {
+		if g := f.deepCallee(ins); g != nil && (f.NoSummary == nil || !f.NoSummary(ins)) {
 			if f.ds == nil {
 				f.ds = &deepState{memo: map[deepKey]bool{}, stack: map[*ssa.Function]bool{}}
 			}
@@ -446,7 +450,7 @@ func (f *Flow) summary(g *ssa.Function, in bool, depth int, st *deepState) bool 
 		return false
 	}
 	st.stack[g] = true
-	sub := &Flow{P: f.P, Fn: g, Entry: in, Edge: f.Edge, EdgeKill: f.EdgeKill, Instr: f.Instr, deep: depth - 1, deepOK: f.deepOK, ds: st}
+	sub := &Flow{P: f.P, Fn: g, Entry: in, Edge: f.Edge, EdgeKill: f.EdgeKill, Instr: f.Instr, deep: depth - 1, deepOK: f.deepOK, NoSummary: f.NoSummary, ds: st}
 	sub.Solve()
 	res := true
 	rets := 0
